@@ -636,6 +636,11 @@ def run_traced(cfg, max_batches=400):
                 shutil.copyfile(path, p2)
                 os.replace(p2, path)
                 s_new = build_sampler(nautilus, cfg, tr, prob, filepath=path, resume=True)
+                if bool(s_new._discard_exploration) != bool(s._discard_exploration):
+                    # (a toggle that no batch has persisted yet never reaches this point: toggle_dirty)
+                    for pr in ('C05', 'C12'):
+                        tr.fail(pr, 'the view chosen with discard_exploration (%s) is lost across a resume: the resumed sampler has %s' % (
+                            bool(s._discard_exploration), bool(s_new._discard_exploration)), batch=k)
                 if len(s_new.bounds) != len(old_bids):
                     tr.fail('C05', 'resumed sampler has %d bounds, the running one had %d' % (len(s_new.bounds), len(old_bids)), batch=k)
                     break
